@@ -4703,6 +4703,11 @@ class AcceptLanguageValidHeader(AcceptLanguage):
                 ):  # if subtag_before_this is a single-letter or -digit subtag
                     subtags.pop(-1)  # pop twice instead of once
                 subtags.pop(-1)
+                if not subtags:
+                    # the whole range has been truncated away (e.g. 'x-private'
+                    # or 'a-b'): there is no range left to compare with, so an
+                    # empty offered tag must not be taken for a match
+                    break
                 range_ = "-".join(subtags)
 
         for range_ in acceptable_ranges:
